@@ -558,10 +558,19 @@ theorem ainv_launchExtensions (s : State) (ph : Phase) (ps : List String) (h : A
           { name := p, ext := true, st := ExtState.launchError, errSet := true, errType := "TooManyExtensions", serial := s.nextSerial } hnot rfl]
         exact ainv_append_refused s.agents _ h hnot rfl
       · rename_i hlen
-        apply ih
-        show AInvL (s.agents ++ [_])
-        simp only [List.length_append, List.length_singleton, gt_iff_lt, Nat.not_lt] at hlen
-        exact ainv_append s.agents _ h hnot (by omega)
+        split
+        · -- Exec fails: the new agent is marked LaunchError
+          apply ainv_initFinish
+          show AInvL (storeFatal _ _).agents
+          rw [storeFatal_agents]
+          show AInvL (List.map _ (s.agents ++ [_]))
+          rw [map_replace_last s.agents { name := p, ext := true, serial := s.nextSerial }
+            { name := p, ext := true, st := ExtState.launchError, errSet := true, errType := "UnknownError", serial := s.nextSerial } hnot rfl]
+          exact ainv_append_refused s.agents _ h hnot rfl
+        · apply ih
+          show AInvL (s.agents ++ [_])
+          simp only [List.length_append, List.length_singleton, gt_iff_lt, Nat.not_lt] at hlen
+          exact ainv_append s.agents _ h hnot (by omega)
 
 theorem ainv_startInit (s : State) (ph : Phase) (h : AInv s) : AInv (startInit s ph) := by
   unfold startInit
